@@ -171,6 +171,25 @@ CLAIMED["C05"] = {
     "design_ref": "DESIGN.md section 8, C05",
 }
 
+CLAIMED["C14"] = {
+    "text": "Theorem C14_statistics_equal_ground_truth: for EVERY well-framed packet list below the u32 accumulator limits, every filter, "
+            "payloads loaded or skipped, file or pipe, what the collector holds after the main thread's stream (RDH version + the reader's "
+            "statistics forwarded in order) and, in check/view modes, the analysis thread's per-batch statistics equals the ground truth "
+            "computed from the packets alone: RDHs visited (skipped links included), RDHs matching the filter, payload bytes of the returned "
+            "packets, links and FEE ids in first-seen order, version / run trigger type / data format / system id of the first header (each "
+            "recorded once), stop-bit packets and the 20 per-bit trigger counts of the analysed (= selected) packets. It rests on "
+            "C14_scanner_statistics (the scanner proofs of C03 were extended to carry the statistics part of the state through the filter "
+            "loop, with the flush-on-u32::MAX logic), on the collector's counters as sums, and on C03 for the batches. C14_finalize (links "
+            "sorted, everything else kept) and C14_error_total complete it; distinct error codes are a function of the final list (C05). "
+            "Tied to the code by the statistics file (JSON and TOML) and the report of the rebuilt binary against an independent recount "
+            "and against the model, over modes x filters x counts beyond a batch x payload totals beyond 2^16. Defect F7 (view mode wrote "
+            "an unfinalised file) was found by this check and repaired by a fix: commit.",
+    "note": "Trusted: Coq kernel; gen translator; binary; extraction + driver; the Python recount; serde/toml and the report table (parsed). "
+            "Layer/stave pairs are compared by the check only (not in the theorem); u32 wrap is outside the theorem (modelled).",
+    "technique": "Coq proof (scanner statistics carried through the C03 induction; counters as vector sums; first-seen idempotence) + statistics file and report vs independent recount",
+    "design_ref": "DESIGN.md section 8, C14",
+}
+
 ALL = ["C%02d" % i for i in range(1, 21)]
 PENDING_REASON = "not claimed yet: the model/proof for this property is still under construction in this development (see DESIGN.md section 12 build order); no check is registered until its theorem file compiles without admits and its correspondence stream runs"
 
@@ -218,7 +237,7 @@ def main():
 
 
 HOOK_COMMITS = ["f32fed4"]
-FIX_COMMITS = ["2eb10e8", "024b878", "afd2aa3", "f731241"]
+FIX_COMMITS = ["2eb10e8", "024b878", "afd2aa3", "f731241", "add603d"]
 NOT_APPLICABLE = {}
 
 if __name__ == "__main__":
